@@ -185,7 +185,8 @@ def _registry_projection():
 
 
 def _one_history(args):
-    idx, hist, work = args
+    idx, hist, work = args[:3]
+    fresh_digests = args[3] if len(args) > 3 else {}
     d = os.path.join(work, "h%d" % idx)
     os.makedirs(d, exist_ok=True)
     execs = {"same": translate.executor_for(PROBE_BACKEND)}
@@ -206,8 +207,10 @@ def _one_history(args):
             os._exit(code)
         os.waitpid(pid, 0)
         r = json.load(open(out))
+        # the package text is only kept where it differs from the fresh-process package (it is what the replay file shows)
+        keep = fresh_digests.get(probe) != r["digest"]
         recs.append({"hist": hist, "hid": idx, "probe": probe, "digest": r["digest"], "outcome": r["outcome"], "exc": r["exc"],
-                     "blob": r["blob"], "op_outcomes": outcomes, "registry_after_history": proj})
+                     "blob": r["blob"] if keep else "", "op_outcomes": outcomes, "registry_after_history": proj if keep else {}})
     shutil.rmtree(d, ignore_errors=True)
     return recs
 
@@ -220,8 +223,11 @@ def replay_histories(hists):
     work = common.scratch("verif.c07.")
     ctx = mp.get_context("fork")
     with ctx.Pool(processes=common.NCPU, maxtasksperchild=1) as pool:
-        res = pool.map(_one_history, [(i, h, work) for i, h in enumerate(hists)], chunksize=1)
-    return [r for rs in res for r in rs]
+        # the empty history first: its packages are the reference (and the only ones always kept in full)
+        first = pool.map(_one_history, [(i, h, work) for i, h in enumerate(hists) if not h], chunksize=1)
+        fresh_digests = {r["probe"]: r["digest"] for rs in first for r in rs}
+        rest = pool.map(_one_history, [(i, h, work, fresh_digests) for i, h in enumerate(hists) if h], chunksize=1)
+    return [r for rs in first + rest for r in rs]
 
 
 def run(tier, hists_override=None):
